@@ -326,7 +326,7 @@ def run(ctx):
         base = observe.run(text, [], want_text=False)
         if base.error or len(base.mol.conformation_names) != 1:
             continue
-        hl = c04.dump_with_h(base)
+        hl = c04.dump_with_h(base, text)
         nh0 = sum(1 for l in hl if pdbgen.is_atom(l) and l[12:16].strip().startswith("H"))
         if nh0 == 0:
             continue
